@@ -342,6 +342,12 @@ func run(c Case) (o hx.Outcome) {
 		if nn < 2 {
 			continue
 		}
+		if len(want) > 4000 {
+			// a harness-owned schedule costs one goroutine hand-over per hook hit (4 per chunk):
+			// keep it to inputs where that stays within seconds, perturbation covers the rest
+			o.Class("controlled-schedule-skipped:many-chunks")
+			continue
+		}
 		for _, sp := range c.Sched {
 			ctl := &sched.Controlled{N: nn, Prefix: "pchunk.", ExitSite: "pchunk.exit", Ignore: []string{"pchunk.collect"}, Choices: sp.Choices, Tail: sp.Tail, Prio: sp.Prio, Changes: sp.Changes}
 			var idx desync.Index
@@ -515,7 +521,7 @@ var spec = &hx.Spec[Case]{
 	Gen:         genCase,
 	Run:         run,
 	Journal:     true,
-	Watchdog:    120 * time.Second,
+	Watchdog:    hx.Pick(120*time.Second, 900*time.Second),
 }
 
 func TestMain(m *testing.M) { hx.Main(m) }
